@@ -827,11 +827,14 @@ impl Scaler for FreeTypeScaler<'_> {
             let anchor_offset = match component.anchor {
                 Anchor::Offset { x, y } => {
                     let (mut x, mut y) = (x as i32, y as i32);
+                    // FreeType only looks at SCALED_COMPONENT_OFFSET here, so
+                    // the offset is scaled even if a (malformed) glyph also
+                    // sets UNSCALED_COMPONENT_OFFSET.
+                    // <https://gitlab.freedesktop.org/freetype/freetype/-/blob/57617782464411201ce7bbc93b086c1b4d7d84a5/src/truetype/ttgload.c#L1246>
                     if have_xform
-                        && component.flags
-                            & (CompositeGlyphFlags::SCALED_COMPONENT_OFFSET
-                                | CompositeGlyphFlags::UNSCALED_COMPONENT_OFFSET)
-                            == CompositeGlyphFlags::SCALED_COMPONENT_OFFSET
+                        && component
+                            .flags
+                            .contains(CompositeGlyphFlags::SCALED_COMPONENT_OFFSET)
                     {
                         // According to FreeType, this algorithm is a "guess"
                         // and works better than the one documented by Apple.
